@@ -2,7 +2,7 @@ SPECIFICATION Spec
 CONSTANTS
  Codecs = {"ikey", "lock", "write0", "write1", "entry", "valueptr", "valuestruct", "m_addfile", "m_delfile", "m_logptr", "m_vloghead", "m_vlogdel", "m_vlogupd", "m_raftptr", "m_regiondel", "m_region0", "m_region2", "raftentries0", "raftentries2", "rafthard", "raftsnap", "raftcmd"}
  Mutate = TRUE
- ExtBoth = FALSE
+ ExtBoth = TRUE
  KAlphabet = {0, 97, 255}
  KMaxLen = 2
  KCFs = {0, 1}
